@@ -26,15 +26,38 @@ from vlib.models import InjectedFault, InjectedInterrupt  # noqa: E402
 class FailingMinkowski(MinkowskiLoss):
     """Minkowski loss that raises InjectedFault at its k-th evaluation (k=None: never)."""
 
-    def __init__(self, k=None, interrupt=False, **kw):
+    def __init__(self, k=None, interrupt=False, kind=None, inside=False, **kw):
         super().__init__(**kw)
         self.k = k
         self.calls = 0
         self.interrupt = interrupt
+        self.kind = kind
+        self.inside = inside       # raise from within the evaluation (at the last coordinate) instead of before it
+        self._arm = False
+
+    def _fault(self, i):
+        from vlib.models import make_fault
+
+        if self.kind is not None:
+            return make_fault(self.kind, f"loss call {i}")
+        return (InjectedInterrupt if self.interrupt else InjectedFault)(f"loss call {i}")
 
     def compute_loss(self, sim, real):
         i = self.calls
         self.calls += 1
         if self.k is not None and i == self.k:
-            raise (InjectedInterrupt if self.interrupt else InjectedFault)(f"loss call {i}")
-        return super().compute_loss(sim, real)
+            if not self.inside:
+                raise self._fault(i)
+            self._arm, self._coord, self._last = True, 0, real.shape[1] - 1
+        try:
+            return super().compute_loss(sim, real)
+        finally:
+            self._arm = False
+
+    def compute_loss_1d(self, sim, real):
+        if self._arm:
+            j = self._coord
+            self._coord += 1
+            if j == self._last:
+                raise self._fault(self.calls - 1)
+        return super().compute_loss_1d(sim, real)
